@@ -143,19 +143,24 @@ func genC05(ctx *Ctx) {
 		ctx.Input(sx.L(sx.I(2), steps), true)
 	}
 	// calculator histories
-	bad := []string{"a +", "1 2", "f(", "a[1", "(a", "a $ b", "", "NOT", "a IS", "'x"}
+	bad := []string{"a +", "1 2", "f(", "a[1", "(a", "a $ b", "", "NOT", "a IS", "'x", "1 + 2 )", "a * b c", "x IS NOT 5", "f(a, b", "a b"}
 	for i := 0; i < ctx.N/4; i++ {
 		n := 2 + ctx.Rnd.Intn(5)
 		var steps sx.List
+		prev := ""
 		for j := 0; j < n; j++ {
 			var text string
-			if ctx.Rnd.Intn(4) == 0 {
+			if j > 0 && ctx.Rnd.Intn(3) == 0 {
+				text = prev // the same text again, well-formed or not
+				ctx.Count("calculator-history:repeated-input")
+			} else if ctx.Rnd.Intn(4) == 0 {
 				text = bad[ctx.Rnd.Intn(len(bad))]
 			} else {
 				t := genTree(ctx.Rnd, 1+ctx.Rnd.Intn(4))
 				p := &printer{rnd: ctx.Rnd, parens: ctx.Rnd.Intn(3), noise: ctx.Rnd.Intn(2) == 0}
 				text = p.at(t, 0)
 			}
+			prev = text
 			steps = append(steps, exprInput(text, sx.L(), nil))
 		}
 		ctx.Count("calculator-history")
